@@ -425,6 +425,7 @@ package bchutil
 //@   assert after EqualFold#2: sameobj($arg0, addr) && $arg0.off == addr.off && len($arg0) == len(defaultNet.SlpAddressPrefix) + 1 && len($arg1) == len(defaultNet.SlpAddressPrefix) + 1 && $arg1[len($arg1) - 1] == ':' && forall k :: 0 <= k && k < len(defaultNet.SlpAddressPrefix) ==> $arg1[k] == defaultNet.SlpAddressPrefix[k]
 //@   assert after checkDecodeCashAddress#1: ($ret_EqualFold#1 || $ret_EqualFold#2) ==> sameobj($arg0, addr) && $arg0.off == addr.off && len($arg0) == len(addr)
 //@   assert after checkDecodeCashAddress#1: !($ret_EqualFold#1 || $ret_EqualFold#2) ==> len($arg0) >= len(defaultNet.CashAddressPrefix) + 1 && $arg0[len(defaultNet.CashAddressPrefix)] == ':' && forall k :: 0 <= k && k < len(defaultNet.CashAddressPrefix) ==> $arg0[k] == defaultNet.CashAddressPrefix[k]
+//@   assert after checkDecodeCashAddress#1: !($ret_EqualFold#1 || $ret_EqualFold#2) ==> len($arg0) == len(defaultNet.CashAddressPrefix) + 1 + len(addr) && forall k :: 0 <= k && k < len(addr) ==> $arg0[len(defaultNet.CashAddressPrefix) + 1 + k] == (('A' <= addr[k] && addr[k] <= 'Z') ? addr[k] + 32 : addr[k])
 //@   assert after checkDecodeCashAddress#2: ($ret_EqualFold#3 || $ret_EqualFold#4) ==> sameobj($arg0, addr) && $arg0.off == addr.off && len($arg0) == len(addr)
 //@   assert after checkDecodeCashAddress#2: !($ret_EqualFold#3 || $ret_EqualFold#4) ==> len($arg0) >= len(defaultNet.SlpAddressPrefix) + 1 && $arg0[len(defaultNet.SlpAddressPrefix)] == ':' && forall k :: 0 <= k && k < len(defaultNet.SlpAddressPrefix) ==> $arg0[k] == defaultNet.SlpAddressPrefix[k]
 //@   assert after newAddressPubKeyHash#1: typ == AddrTypePayToPubKeyHash && $arg1 == defaultNet && sameobj($arg0, $ret0_checkDecodeCashAddress#1) && len($arg0) == 20
